@@ -37,6 +37,11 @@ var harnesses = map[string]*Harness{
 	},
 }
 
+func init() {
+	harnesses["core"] = &Harness{Name: "core", Pkg: "verifrt/h/hcore",
+		Rewrites: []Rewrite{{Dir: "match", VRange: true}, {Dir: "core", VRange: true}}}
+}
+
 var commonAssumptions = []string{
 	"bounds are bounds: nothing is claimed beyond the stated alphabet/size/deviation bounds",
 	"instrumentation is a text-spliced copy of the current working tree applied with go -overlay; the Go toolchain, goja and bbolt are trusted",
@@ -54,6 +59,36 @@ func init() {
 }
 
 var checks = map[string]*Check{
+	"C07": {ID: "C07", Harness: "core", Func: "C07", Category: "exploration", QuickDeadline: 240, ThoroughDeadline: 1500, CrashIsViolation: true,
+		Engine: "E1", DesignRef: "6/C07",
+		Technique: "conjunction-bounded exhaustive enumeration over independent hostile-input dimensions (all combinations of at most k non-default dimensions) with a panic trap and hang horizon around every load/compile/step/walk, plus reference comparison where defined",
+		LevelText: "Every combination of up to k hostile dimensions (spec document defects, state, message, control, props, action behaviour, guard behaviour, error routing) in five representations is loaded, compiled and processed on the real code under a panic trap; failures must surface as errors or error states equal to the reference's.",
+		LevelNote: "Trusted: panic trap (recover) and the worker-crash detector for fatal errors; reference walk/step. Only the listed hostile values are covered; a crash that needs more than k simultaneous hostile dimensions is out of reach.",
+		Assumptions: commonAssumptions},
+	"C06": {ID: "C06", Harness: "core", Func: "C06", Category: "exploration", QuickDeadline: 240, ThoroughDeadline: 1500,
+		Engine: "E1", DesignRef: "6/C06",
+		Technique: "bounded-exhaustive enumeration of step and walk cases with deep before/after snapshots of every argument, map-identity (alias) checks and repeat-call comparison",
+		LevelText: "Every case of the C04 step space and the C05 walk space (quick vocabularies) is executed with deep snapshots of state, messages, spec, control and props taken before and after; any difference, any returned state sharing the caller's bindings map, and any difference between two identical calls is a violation.",
+		LevelNote: "Trusted: the reflect-based snapshot (rt/snap). Generated native actions never write to the map they are given (action misbehaviour is not engine behaviour).",
+		Assumptions: append([]string{"failing behaviours are generated systematically: throwing / bad-return / same-map actions, rejecting and throwing guards, steps ending at the error node, walks hitting the limit or a breakpoint"}, commonAssumptions...)},
+	"C18": {ID: "C18", Harness: "core", Func: "C18", Category: "exploration", QuickDeadline: 200, ThoroughDeadline: 900,
+		Engine: "E1", DesignRef: "6/C18",
+		Technique: "bounded-exhaustive enumeration of states with permanent bindings x action/guard programs x node shapes x error routing on the real Spec.Step",
+		LevelText: "All combinations of a state universe with permanent bindings and an action/guard program list covering every way of returning bindings (and of failing) are executed through Spec.Step with every error-routing setting; whenever a state results every permanent binding must be present and unchanged; no crash.",
+		LevelNote: "Trusted: action-language renderers. Only the listed programs and states are covered.",
+		Assumptions: commonAssumptions},
+	"C05": {ID: "C05", Harness: "core", Func: "C05", Category: "model_checking", QuickDeadline: 200, ThoroughDeadline: 1500,
+		Engine: "E1", DesignRef: "6/C05",
+		Technique: "explicit enumeration of all histories (spec x start state x message sequence x batch split x limit x breakpoint) on the real Spec.Walk with per-walk invariants, a reference walk and a split differential",
+		LevelText: "All walks of a finite family of 3-node specifications over all short message histories, every split into batches, a range of step limits and breakpoints are executed on the real Spec.Walk; ordered exactly-once consumption, the step bound, the truthful remainder, chain continuity, quiescence on Done, equality with a reference walk and split-independence are checked on every one.",
+		LevelNote: "Trusted: reference walk/step (rt/ref/rstep), action-language model. Specs are limited to 3 nodes from a fixed template list; sequences to the stated length.",
+		Assumptions: append([]string{"deterministic actions and guards only (as the property states)"}, commonAssumptions...)},
+	"C04": {ID: "C04", Harness: "core", Func: "C04", Category: "exploration", QuickDeadline: 200, ThoroughDeadline: 1500,
+		Engine: "E1", DesignRef: "6/C04",
+		Technique: "bounded-exhaustive enumeration of node configurations x error settings x states x pending messages on the real Spec.Step against an executable reference of the documented step rule",
+		LevelText: "Every step of the stated finite space of specifications/states/messages is executed on the real Spec.Step (native and ECMAScript actions) and compared with a reference written from the README's Processing section; exhaustive within the vocabulary.",
+		LevelNote: "Trusted: the reference step rule (rt/ref/rstep), the action-language model (rt/actlang), pattern matching itself (decided by C01/C02). Error wording is not compared (masked).",
+		Assumptions: append([]string{"reference rule rt/ref/rstep.Step; pattern matching inside the reference uses match.Match (its correctness is C01/C02)"}, commonAssumptions...)},
 	"C01": {ID: "C01", Harness: "match", Func: "C01", Category: "exploration", QuickDeadline: 150, ThoroughDeadline: 1500,
 		Engine: "E1", DesignRef: "6/C01",
 		Technique: "bounded-exhaustive enumeration of (pattern, message, bindings) triples against a reference containment relation (explicit enumeration, no sampling)",
